@@ -251,6 +251,17 @@ type issuer struct {
 	std    *stdx509.Certificate
 	attrs  []atv // expected issuer DN
 	skid   []byte
+	mk     func() *x509.Certificate // hand-built issuers: a new object holding the same values
+}
+
+// arg is the issuer object for one case: the shared parsed certificate, or a private new object for the
+// hand-built issuers (a reuse history edits it in place, and nothing a creation call might write into it
+// is shared between goroutines).
+func (is *issuer) arg() *x509.Certificate {
+	if is.mk != nil {
+		return is.mk()
+	}
+	return is.z
 }
 
 var issuers = map[string]*issuer{}
@@ -294,8 +305,19 @@ func buildIssuers(c *ev.Ctx) {
 		// hand-built (never parsed) issuer value: only the documented inputs are set
 		base := issuers["ca/"+kind]
 		sh := shapeCN("C05 issuer ca " + kind)
-		issuers["struct/"+kind] = &issuer{id: "struct", kind: kind, verify: base.verify, std: base.std, attrs: sh.attrs, skid: skid20,
-			z: &x509.Certificate{Subject: sh.name, KeyUsage: x509.KeyUsageCRLSign, SubjectKeyId: skid20}}
+		mkStruct := func(shape func(cn string) nameShape, cn string, skid []byte) func() *x509.Certificate {
+			return func() *x509.Certificate {
+				return &x509.Certificate{Subject: shape(cn).name, KeyUsage: x509.KeyUsageCRLSign, SubjectKeyId: append([]byte{}, skid...)}
+			}
+		}
+		mk := mkStruct(shapeCN, "C05 issuer ca "+kind, skid20)
+		issuers["struct/"+kind] = &issuer{id: "struct", kind: kind, verify: base.verify, std: base.std, attrs: sh.attrs, skid: skid20, z: mk(), mk: mk}
+		// the same key under another hand-built name and key identifier; the verification APIs that compare
+		// names get the parsed certificate of that name
+		mbase := issuers["multidn/"+kind]
+		sh2 := shapeMulti("C05 issuer multidn " + kind)
+		mk2 := mkStruct(shapeMulti, "C05 issuer multidn "+kind, skid20[:12])
+		issuers["struct2/"+kind] = &issuer{id: "struct2", kind: kind, verify: mbase.verify, std: mbase.std, attrs: sh2.attrs, skid: skid20[:12], z: mk2(), mk: mk2}
 		issuers["nil/"+kind] = &issuer{id: "nil", kind: kind, verify: base.verify, std: base.std}
 	}
 }
